@@ -408,6 +408,9 @@ func (ex *Exec) runBlocks(fr *Frame, order []*ssa.BasicBlock, st0 *State, reach0
 					continue
 				}
 				if e, ok := fr.edges[[2]int{p.Index, b.Index}]; ok {
+					if e.cond.S == False.S {
+						continue // statically dead edge (constant condition)
+					}
 					states = append(states, e.st)
 					conds = append(conds, e.cond)
 				}
